@@ -112,7 +112,8 @@ def run_c18(pid, tier):
     def variants(i):
         return [("independent", dict(base, ident_seed=sd * 3 + 1), dict(base, ident_seed=sd * 3 + 2)),
                 ("embed", dict(base, ident_seed=sd * 3 + 1), dict(base, ident_seed=sd * 3 + 3, style="embed")),
-                ("kwprefix", dict(base, ident_seed=sd * 3 + 1), dict(base, ident_seed=sd * 3 + 4, style="kwprefix"))]
+                ("kwprefix", dict(base, ident_seed=sd * 3 + 1), dict(base, ident_seed=sd * 3 + 4, style="kwprefix")),
+                ("nearspecial", dict(base, ident_seed=sd * 3 + 1), dict(base, ident_seed=sd * 3 + 5, style="nearspecial"))]
     run_pairs(R, pid, recs, variants, "renaming_changes_diagnostics")
     # the keyword table must stay disjoint from every spelling class used (TLC, over the extracted table)
     used = set()
